@@ -180,6 +180,65 @@ def gen(rng, tier):
         yield Case("phase", [cpus, 1, rng.choice([0, 1]), 0, 0, "ref:" + orf, P.rows_str(rows), P.WATCH_MS], False, "phase-error-path")
 
 
+    # ---- the aligner behind phasing (ALIGN_ALGO_ATG) and alignAgainstRefsNT on one sequence ----------------
+    for c in align_cases(rng, quick):
+        yield c
+
+
+GAPS = [("d", "d"), ("d", "d"), ("-20", "-1"), ("-4", "-1"), ("-2", "-2"), ("-6", "-3"), ("-24", "-1")]
+SCORES = [("_", "_"), ("_", "_"), ("2", "-2"), ("10", "-8"), ("4", "-1"), ("2", "1"), ("6", "-6")]
+
+
+def align_cases(rng, quick):
+    """atgalign: the ATG-mode aligner against its model; phasent1: alignAgainstRefsNT on one sequence.
+    Inputs always hold a (possibly mutated) copy of the reference, so that some alignment anchored at the
+    reference's start scores above 0 (without one the worker goroutine panics: see the report of C16)."""
+    for _ in range(400 if quick else 4000):
+        orf = make_orf(rng, rng.randint(1, 12))
+        kind = rng.randint(0, 3)
+        if kind == 0:
+            body = orf                                              # verbatim
+        elif kind == 1:
+            body = mutate(rng, orf, rng.choice([0.02, 0.1, 0.3]), rng.random() < 0.3)
+        elif kind == 2:
+            k = rng.randint(1, len(orf) - 1)                        # truncated copy
+            body = orf[:k] if rng.random() < 0.5 else orf[len(orf) - k:]
+        else:
+            body = rnd(rng, rng.randint(1, 12))                     # unrelated
+        left, right = rnd(rng, rng.randint(0, 9)), rnd(rng, rng.randint(0, 9))
+        seq = left + body + right
+        if rng.random() < 0.1:
+            seq = seq + orf                                         # a second copy
+        go, ge = rng.choice(GAPS)
+        mt, mm = rng.choice(SCORES)
+        once = seq.count(orf) == 1 and seq.find(orf) == seq.rfind(orf)
+        yield Case("atgalign", [2, go, ge, mt, mm, orf, seq], once and bool(left) and bool(right), "atgalign")
+    for _ in range(150 if quick else 1500):
+        # tiny pairs: every border path of the trace-back (start in the first row / column, no positive value)
+        s1 = rnd(rng, rng.randint(1, 4))
+        s2 = rnd(rng, rng.randint(1, 5))
+        go, ge = rng.choice(GAPS)
+        mt, mm = rng.choice(SCORES)
+        yield Case("atgalign", [2, go, ge, mt, mm, s1, s2], False, "atgalign-tiny")
+    for _ in range(150 if quick else 1500):
+        orf = make_orf(rng, rng.randint(2, 12))
+        verb = rng.random() < 0.5
+        body = orf if verb else mutate(rng, orf, rng.choice([0.02, 0.1]), rng.random() < 0.2)
+        left, right = rnd(rng, rng.randint(0, 9)), rnd(rng, rng.randint(0, 9))
+        seq = left + body + right
+        reverse = rng.choice([0, 0, 1])
+        if reverse and rng.random() < 0.5:
+            seq = revcomp(seq)
+        refs = "ref:" + orf
+        if rng.random() < 0.15:
+            refs += ",ref2:" + make_orf(rng, rng.randint(2, 6))
+        go, ge = rng.choice([("d", "d"), ("d", "d"), ("-20", "-1"), ("-24", "-1")])
+        mt, mm = rng.choice([("_", "_"), ("_", "_"), ("2", "-2"), ("10", "-8")])
+        once = seq.count(orf) == 1
+        yield Case("phasent1", [2, go, ge, mt, mm, reverse, rng.choice([0, 1]), rng.choice([0, 1, 2]), refs, seq],
+                   once and bool(left) and not reverse, "phasent1")
+
+
 def accepts(c):
     return P.accepts(c)
 
